@@ -26,7 +26,9 @@ CONFIGS = {
     "default": (["-p", "insim", "-p", "insim_core", "-p", "insim_pth", "-p", "insim_smx"],
                 "tokio,blocking,websocket"),
     "blocking": (["-p", "insim", "--no-default-features", "--features", "blocking"], "blocking"),
-    "tokio": (["-p", "insim", "--no-default-features", "--features", "tokio"], "tokio"),
+    # `--no-default-features --features tokio` does not build on the pinned tree (builder.rs imports the websocket
+    # items unconditionally), so the tokio-only configuration is websocket (= tokio + websocket)
+    "websocket": (["-p", "insim", "--no-default-features", "--features", "websocket"], "tokio,websocket"),
     "all": (["-p", "insim", "--all-features"], "tokio,blocking,websocket,serde,pth,smx"),
 }
 
